@@ -538,6 +538,52 @@ def run_loky(c):
         shutil.rmtree(wd, ignore_errors=True)
 
 
+def _task_mode(x, root):
+    d = _task(x)
+    n = 0
+    for _dp, _dn, fn in os.walk(root):
+        n += len(fn)
+    d["temp_files"] = n
+    return d
+
+
+def run_loky_mode(c):
+    """automatic memmapping with an explicit mmap_mode (None = "disable memmapping"), given as an argument or through
+    parallel_config, on loky / multiprocessing, managed or not; the call has a timeout so that a hang is an outcome"""
+    from joblib import Parallel, delayed, parallel_config
+    import contextlib
+    wd = tempfile.mkdtemp(dir=TMP)
+    root = os.path.join(wd, "tf")
+    os.makedirs(root)
+    try:
+        rng = random.Random(c["seed"])
+        arrays = [build(spec, rng, wd) for spec in c["arrays"]]
+        want = [{"digest": digest(x), "dtype": str(x.dtype), "shape": list(x.shape), "nbytes": int(x.nbytes)} for x in arrays]
+        kw = {"n_jobs": 2, "max_nbytes": c["max_nbytes"], "backend": c["backend"], "timeout": c.get("timeout", 40),
+              "temp_folder": root}
+        ctxm = contextlib.nullcontext()
+        if c["mode_given"] == "argument":
+            kw["mmap_mode"] = c["mmap_mode"]
+        elif c["mode_given"] == "config":
+            ctxm = parallel_config(mmap_mode=c["mmap_mode"])
+        rounds = []
+        try:
+            with ctxm:
+                if c.get("managed"):
+                    with Parallel(**kw) as p:
+                        for _ in range(2):
+                            rounds.append(p(delayed(_task_mode)(x, root) for x in arrays))
+                else:
+                    p = Parallel(**kw)
+                    for _ in range(2):
+                        rounds.append(p(delayed(_task_mode)(x, root) for x in arrays))
+        except BaseException as e:  # noqa  (TimeoutError, BrokenProcessPool, ...)
+            return {"want": want, "parallel_raise": "%s: %s" % (type(e).__name__, str(e)[:160]), "rounds_done": len(rounds)}
+        return {"want": want, "rounds": rounds}
+    finally:
+        shutil.rmtree(wd, ignore_errors=True)
+
+
 # ------------------------------------------------------------------ load() dispatch matrix
 class OtherReader:
     """a readable, seekable, peekable object that is neither a raw file nor a BytesIO"""
@@ -636,7 +682,7 @@ def run_route(c):
         else:
             a = build(c["array"], rng, wd)
         folder = os.path.join(wd, "pool")
-        red = mr.ArrayMemmapForwardReducer(c["max_nbytes"], lambda: folder, "r", False, prewarm=False)
+        red = mr.ArrayMemmapForwardReducer(c["max_nbytes"], lambda: folder, c.get("mmap_mode", "r"), False, prewarm=False)
         names = {"_strided_from_memmap": "reduce_backed", "load_temporary_memmap": "dump_temp", "loads": "pickle"}
         out = {"nbytes": int(a.nbytes), "hasobject": bool(a.dtype.hasobject),
                "has_backing": mr._get_backing_memmap(a) is not None}
@@ -731,7 +777,7 @@ def main():
             c = json.loads(line)
             try:
                 r = {"array": run_array, "reduce": run_reduce, "loky": run_loky, "loadmatrix": run_loadmatrix,
-                     "route": run_route, "loky_loop": run_loky_loop}[c["mode"]](c)
+                     "route": run_route, "loky_loop": run_loky_loop, "loky_mode": run_loky_mode}[c["mode"]](c)
             except BaseException as e:  # harness-level failure is reported, not hidden
                 import traceback
                 r = {"harness_error": repr(e), "tb": traceback.format_exc()[-800:]}
